@@ -133,8 +133,10 @@ def index_replay(ctx, case):
 # ------------------------------------------------------------------ modes
 
 @st.composite
-def mode_cases(draw, nmax=96, order=12):
+def mode_cases(draw, nmax=96, order=12, sizes=None):
     N = draw(st.integers(2, nmax))
+    if sizes:
+        N = draw(st.sampled_from(sizes))
     n = draw(st.integers(0, order))
     am = draw(st.integers(0, n // 2)) * 2 + n % 2
     m = am * draw(st.sampled_from([-1, 1]))
@@ -425,6 +427,8 @@ LAWS = [
     plain_law("threads", thread_cases, thread_body, shards={"quick": 3, "thorough": 3}),
     plain_law("extreme_orders_support", extreme_cases, extreme_body, shards={"quick": 2, "thorough": 2}),
     plain_law("very_high_orders", very_high_cases, very_high_body, shards={"quick": 4, "thorough": 8}),
+    # grid sizes beyond 512 samples (where an implementation may switch to another evaluation scheme), with rotation
+    given_law("modes_realistic_size", mode_cases(96, 8, sizes=[512, 513, 600, 640]), mode_body, {"quick": 6, "thorough": 48}, shards={"quick": 3, "thorough": 16}),
     given_law("modes_xl", mode_cases(320, 20), mode_body, {"quick": 0, "thorough": 40}, shards={"quick": 1, "thorough": 16}),
     Law("noll_index", index_run, replay=index_replay, shards={"quick": 16, "thorough": 16}),
     Law("noll_index_narrow_types", narrow_index_run, replay=narrow_index_replay, shards={"quick": 1, "thorough": 1}),
